@@ -593,3 +593,24 @@ pub fn req_matches(req_suffix: &str, v: &str) -> bool {
     _ => false,
   }
 }
+
+/// Is how deno_graph treats this specifier a matter of the context of its
+/// first visitor? Attribute-less JSON and unknown media types are accepted
+/// or rejected depending on root / dynamic-branch context, and npm entries
+/// depend on whether they were first met statically or dynamically when the
+/// resolver fails. An existing entry is never re-evaluated, so two graphs
+/// that met such a specifier in different contexts differ there (known
+/// findings, DESIGN.md §6).
+pub fn context_sensitive(w: &World, url: &str) -> bool {
+  if url.starts_with("npm:") {
+    return w.npm.enabled && (w.npm.dep_graph_fails || !w.npm.fail.is_empty());
+  }
+  let f = final_target(w, url);
+  match w.descs.get(&f) {
+    Some(d) => matches!(d.lang, Lang::Json | Lang::Unknown | Lang::Css),
+    None => {
+      let path = f.split(['?', '#']).next().unwrap_or(&f);
+      path.ends_with(".json") || path.ends_with(".txt") || path.ends_with(".css")
+    }
+  }
+}
